@@ -276,7 +276,23 @@ def scenario_stale_leader(binary, rng, burst=6):
         old = find_leader(nodes) or rot or n1
         obs["elected_leader_frozen"] = old.node_id
         others = [n for n in nodes if n is not old]
+        # a write that is PENDING in the elected leader when it is deposed: both followers are frozen, the
+        # publish is sent (it cannot commit), then the leader is frozen and the followers are continued
+        import threading
+        pend = {}
+        for n in others:
+            n.sigstop()
+
+        def _pending():
+            pend["res"] = old.publish("pend", GROUP, "pending-write", timeout=60.0)
+        th = threading.Thread(target=_pending, daemon=True)
+        th.start()
+        time.sleep(0.8)
+        pend_i = i
+        i += 1
         old.sigstop()
+        for n in others:
+            n.sigcont()
         newl, secs = wait_until(lambda: find_leader(others), 25.0)
         obs["new_leader"] = newl.node_id if newl else None
         obs["election_wait_s"] = round(secs, 1)
@@ -285,6 +301,11 @@ def scenario_stale_leader(binary, rng, burst=6):
             obs["history"].append({"i": i, "node": newl.node_id, "op": "pub", "key": keys[0], "value": "new-leader-write", "status": st, "body": body[:60]})
             i += 1
         old.sigcont()
+        th.join(30.0)
+        st, body = pend.get("res", (0, "no answer"))
+        keys.append("pend")
+        obs["pending_answer"] = [st, body[:80]]
+        obs["history"].append({"i": pend_i, "node": old.node_id, "op": "pub", "key": "pend", "value": "pending-write", "status": st, "body": body[:60]})
         for j in range(burst):                      # at once: the old leader has not yet seen the new term
             # every write goes to its own key, so that a lost acknowledged write cannot be masked by a later one
             if j % 3 == 2:
